@@ -60,8 +60,10 @@ func Setup(c *vf.Ctx, restore func()) *refsmb.Universe {
 
 // Enumerate runs fn on every assignment of cmd within `bound` deviations from the base (zero or full).
 // Each free field is one choice point of mc/explore: alternative 0 keeps the base value, alternative k is
-// lattice value k-1. The first two lattice values of a field cost one deviation, the others two, so with
-// bound 2 every single value is visited and pairs are formed over the reduced lattice.
+// lattice value k-1. The first Cheap lattice values of a field cost one deviation, the others two, so with
+// bound >= 2 every single value is visited and pairs/triples are formed over the reduced lattice.
+var Cheap = 2
+
 func Enumerate(cmd *refsmb.Cmd, lat [][]refsmb.Choice, full bool, bound int, stop func() bool, fn func(a *refsmb.Assign, r *explore.Run)) (explore.Stats, error) {
 	e := &explore.Explorer{Bound: bound, Stop: stop}
 	e.Body = func(r *explore.Run) {
@@ -74,7 +76,7 @@ func Enumerate(cmd *refsmb.Cmd, lat [][]refsmb.Choice, full bool, bound int, sto
 			cost := make([]int, n)
 			for k := 1; k < n; k++ {
 				cost[k] = 1
-				if k > 2 {
+				if k > Cheap {
 					cost[k] = 2
 				}
 			}
